@@ -188,7 +188,25 @@ func c05Judge(c c05Case, enc string) (keys []string, detail, class string) {
 	return nil, detail, "inside-window/no-warning"
 }
 
+var c05Memo = map[string][]c05Case{}
+
 func c05Replay(raw json.RawMessage) ([]string, string) {
+	get := func(t string) []c05Case {
+		if d, ok := c05Memo[t]; ok {
+			return d
+		}
+		d, _ := c05Docs(c05Bounds(t == "thorough"), nil)
+		c05Memo[t] = d
+		return d
+	}
+	if keys, detail, ok := liveReplay(raw, "C05", func(t string) int { return len(get(t)) * c05Grid }, func(t string, j int) string {
+		c := get(t)[j/c05Grid]
+		c.Clock = j % c05Grid
+		k, _, class := c05Exec(c)
+		return sig(k, class)
+	}); ok {
+		return keys, detail
+	}
 	var c c05Case
 	if err := json.Unmarshal(raw, &c); err != nil {
 		return nil, err.Error()
@@ -197,17 +215,11 @@ func c05Replay(raw json.RawMessage) ([]string, string) {
 	return k, d
 }
 
-func c05Run(r *mc.Run) {
-	renderBound := map[int]int{1: 2, 2: 1}
-	if r.Thorough() {
-		renderBound = map[int]int{1: 3, 2: 2}
-	}
-	r.Rule = "every assignment of NotBefore / Conditions NotOnOrAfter / each SubjectConfirmationData NotOnOrAfter (n=1,2 assertions) to a 5-point half-second grid x every clock position on the grid (all orderings and equalities), x deviation-bounded renderings of each instant (7 renderings: Z, +00:00, +05:30, -08:00, .000, 9-digit fraction, offset+fraction), plus a menu of 7 malformed values / missing attribute / missing Conditions at every bound; non-trivial = signature verified and the time logic was reached; distinct = distinct (document, clock)"
-	r.Set("rendering_deviation_bound_by_n", fmt.Sprint(renderBound))
-	var docs []c05Case
+func c05Docs(renderBound map[int]int, stop func() bool) (docs []c05Case, complete bool) {
+	complete = true
 	for n := 1; n <= 2; n++ {
 		k := 2 + n
-		_, complete := mc.Enumerate(renderBound[n], r.Expired, func(ch *mc.Chooser) {
+		_, ok := mc.Enumerate(renderBound[n], stop, func(ch *mc.Chooser) {
 			R := make([]int, k)
 			for i := range R {
 				R[i] = ch.Choose(fmt.Sprintf("render%d", i), c05Renderings)
@@ -227,8 +239,8 @@ func c05Run(r *mc.Run) {
 				docs = append(docs, c05Case{N: n, G: G, R: append([]int(nil), R...)})
 			}
 		})
-		if !complete {
-			r.Cap("enumeration stopped by deadline")
+		if !ok {
+			complete = false
 		}
 		// malformed menu: every bound x every kind, other instants at grid 4 (future) / 0 (past NotBefore)
 		for at := 0; at < k; at++ {
@@ -263,8 +275,42 @@ func c05Run(r *mc.Run) {
 			docs = append(docs, d)
 		}
 	}
+	return docs, complete
+}
+
+func c05Bounds(thorough bool) map[int]int {
+	if thorough {
+		return map[int]int{1: 3, 2: 2}
+	}
+	return map[int]int{1: 2, 2: 1}
+}
+
+func c05Run(r *mc.Run) {
+	renderBound := map[int]int{1: 2, 2: 1}
+	if r.Thorough() {
+		renderBound = map[int]int{1: 3, 2: 2}
+	}
+	r.Rule = "every assignment of NotBefore / Conditions NotOnOrAfter / each SubjectConfirmationData NotOnOrAfter (n=1,2 assertions) to a 5-point half-second grid x every clock position on the grid (all orderings and equalities), x deviation-bounded renderings of each instant (7 renderings: Z, +00:00, +05:30, -08:00, .000, 9-digit fraction, offset+fraction), plus a menu of 7 malformed values / missing attribute / missing Conditions at every bound; non-trivial = signature verified and the time logic was reached; distinct = distinct (document, clock)"
+	r.Set("rendering_deviation_bound_by_n", fmt.Sprint(renderBound))
+	docs, complete := c05Docs(renderBound, r.Expired)
+	if !complete {
+		r.Cap("enumeration stopped by deadline")
+	}
 	r.State(len(docs))
 	r.Set("documents", len(docs))
+	fresh := make([]string, len(docs)*c05Grid)
+	defer func() {
+		stride := 4*c05Grid + 1 // co-prime with the grid: every clock position is visited
+		if r.Thorough() {
+			stride = 32*c05Grid + 1
+		}
+		livePass(r, len(fresh), stride, 90*time.Second, func(j int) string {
+			c := docs[j/c05Grid]
+			c.Clock = j % c05Grid
+			keys, _, class := c05Exec(c)
+			return sig(keys, class)
+		}, fresh)
+	}()
 	r.Par(len(docs), func(i int) {
 		d := docs[i]
 		enc := idp.RenderResponse(c05Spec(d))
@@ -272,6 +318,7 @@ func c05Run(r *mc.Run) {
 			c := d
 			c.Clock = clk
 			keys, detail, class := c05Judge(c, enc)
+			fresh[i*c05Grid+clk] = sig(keys, class)
 			r.Eval(1)
 			r.Transition(1)
 			r.Bucket(class)
